@@ -152,6 +152,7 @@ pub fn gen_cfg(r: &mut Rng, o: &GenOpts) -> Cfg {
     } else {
         *r.pick(&[(640u32, 480u32), (1920, 1080), (1280, 720), (16, 16), (3840, 2160), (65_535, 65_535), (1, 1), (352, 288)])
     };
+    let (w, h) = if r.chance(1, 3) && !r.chance(o.hostile_cfg_pct, 100) { (r.any_dim(), r.any_dim()) } else { (w, h) };
     let audio = if r.chance(o.audio_pct, 100) {
         let kind = match r.below(10) {
             0 => A_NONE,
